@@ -193,6 +193,10 @@ def install():
 
 def plan(tier, rng, sl, nslices, stats):
     cfg = TIERS[tier]
+    if sl == 0:
+        yield {"scale": "fold", "n": 14, "op": "union"}
+        yield {"scale": "fold", "n": 13, "op": "union_right"}
+        yield {"scale": "long_word", "n": 1100}
     for i in range(cfg["random"]):
         a = gfst.random_case(rng)
         r = rng.random()
@@ -211,7 +215,63 @@ def plan(tier, rng, sl, nslices, stats):
         yield c
 
 
+def run_scale(c, stats):
+    """(a) fourteen small transducers that all call their states q, m, f are folded with union / concatenate (the
+    renaming counter of the shared names reaches two digits); (b) a word of a thousand symbols is translated"""
+    from pyformlang.fst import FST
+    stats.cls("scale:" + c["scale"])
+    if c["scale"] == "fold":
+        def operand(i):
+            f = FST()
+            f.add_start_state("q")
+            f.add_final_state("f")
+            f.add_transition("q", "ab"[i % 2], "m", ["x"] * (i + 1))
+            f.add_transition("m", "ab"[(i // 2) % 2], "f", ["y"] * (i + 1))
+            return f
+        acc = operand(0)
+        for i in range(1, c["n"]):
+            ok, acc2 = call(acc.union, operand(i)) if c["op"] == "union" else call(operand(i).union, acc)
+            if not ok:
+                return False
+            acc = acc2
+        with core.oracle_mode():
+            racc = extract.fst(acc)
+            for w in words({"a", "b"}, 2):
+                judge_translate(acc, racc, w, sub="translate_of_result")
+        return True
+    # long word through a one-state letter-to-letter transducer, its star and the identity of an automaton
+    f = FST()
+    f.add_start_state(0)
+    f.add_final_state(0)
+    f.add_transition(0, "a", 0, ["x"])
+    f.add_transition(0, "b", 0, ["y", "y"])
+    n = c["n"]
+    w = ["ab"[i % 2] for i in range(n)]
+    exp = []
+    for s_ in w:
+        exp.extend(["x"] if s_ == "a" else ["y", "y"])
+    for g_ in (f,):
+        try:
+            with core.step_budget(40000000):
+                got = [list(o) for o in g_.translate(list(w))]
+        except core.StepBudgetExceeded:
+            core.LOG.count("C16.scale_budget_overrun")
+            continue
+        except Exception as e:      # noqa
+            with core.oracle_mode():
+                core.report(PROP, "translate", "exception:" + type(e).__name__, {"word_length": n}, ["long_word"])
+            continue
+        core.LOG.count("C16.long_words")
+        with core.oracle_mode():
+            if got != [exp]:
+                core.report(PROP, "translate", "missing-output" if not got else "extra-output",
+                            {"word_length": n, "outputs": len(got)}, ["long_word"])
+    return True
+
+
 def run_case(c, stats):
+    if c.get("scale"):
+        return run_scale(c, stats)
     A = gfst.build(c["a"])
     B = A if c["b"] is None else gfst.build(c["b"])
     with core.oracle_mode():
